@@ -326,6 +326,16 @@ let check_call (f : string) (a : sx list) : string option =
   | "vclock", "from_dot", [d; r] -> cmpvc (vfrom_dot (dot_sx d)) (vc_sx r)
   | "vclock", "dot", [c; x; d] -> cmp (=) show_dot (vdot (vc_sx c) (n_sx x)) (dot_sx d)
   | "dot", "inc", [d; r] -> cmp (=) show_dot (dinc (dot_sx d)) (dot_sx r)
+  | "vclock", "iter", [c; ds] ->
+      (* iter / into_iter yield exactly the stored (actor, counter) pairs, in actor order *)
+      let want = List.sort compare (List.map (fun (a, n) -> (int_of_n a, int_of_n n)) (vc_to_list (vc_sx c))) in
+      let got = List.map (fun d -> let d = dot_sx d in (int_of_n d.dactor, int_of_n d.dcounter)) (seq ds) in
+      cmp (=) (fun l -> String.concat "," (List.map (fun (a, n) -> Printf.sprintf "%d:%d" a n) l)) want got
+  | "dot", "conv", [d; od; back; tup] ->
+      (* Dot <-> OrdDot <-> (actor, counter) conversions keep both fields *)
+      let d = dot_sx d in
+      cmp (=) (fun l -> String.concat " " (List.map show_dot l)) [d; d; d]
+        [{ dactor = n_sx (field "actor" od); dcounter = n_sx (field "counter" od) }; dot_sx back; dot_sx tup]
   | "vclock", "from_iter", [ds; r] -> cmpvc (vfrom_iter (List.map dot_sx (seq ds))) (vc_sx r)
   | "dot", "cmp", [d; e; r] -> cmp (=) show_ord (dcmp (dot_sx d) (dot_sx e)) (ord_sx r)
   (* ---- counters *)
